@@ -134,6 +134,8 @@ theorem wt_declTys (vtys : List CSem.Ty) (ret : CSem.Ty) (cnts : List Nat) (st :
   | case_ u => intro lb lc nd nd' h _ _ k t n hk; simp [declTys] at hk
   | default_ => intro lb lc nd nd' h _ _ k t n hk; simp [declTys] at hk
   | call dst rt fn args => intro lb lc nd nd' h _ _ k t n hk; simp [declTys] at hk
+  | callp dst rt fn pargs args => intro lb lc nd nd' h _ _ k t n hk; simp [declTys] at hk
+  | pload d dt k' t w c0 x => intro lb lc nd nd' h _ _ k t n hk; simp [declTys] at hk
   | aload d dt a t n xb x => intro lb lc nd nd' h _ _ k t n hk; simp [declTys] at hk
   | astore a t n xb x v => intro lb lc nd nd' h _ _ k t n hk; simp [declTys] at hk
   | switch_ e b ihb =>
@@ -161,27 +163,64 @@ theorem paramSlots_getD {n k : Nat} (h : k < n) : (paramSlots n).getD k 0 = 2 * 
 
 theorem paramSlots_length (n : Nat) : (paramSlots n).length = n := by simp [paramSlots]
 
-theorem initStore_param (f : CSem2.Func) {ρ : List Int} {i : Nat} {v : Int} (h : ρ[i]? = some v) :
-    (initStore f ρ)[i]? = some (some v) := by
-  have hi := lt_of_get h
-  rw [initStore, List.getElem?_append_left (by simpa using hi)]
-  simp [h]
+theorem initStore_pre_len (f : CSem2.Func) {ρ : List Int} (hl : ρ.length = f.params.length)
+    (hp : f.pwin.length ≤ f.params.length) :
+    (List.replicate f.pwin.length (none : Option Int) ++ (ρ.drop f.pwin.length).map some ++
+      List.replicate (f.locals.length + f.extra) none).length = f.vtys.length + f.extra := by
+  simp only [List.length_append, List.length_replicate, List.length_map, List.length_drop,
+    CSem2.Func.vtys]
+  omega
 
-/-- beyond the arguments no cell holds a value on entry -/
-theorem initStore_none (f : CSem2.Func) {ρ : List Int} {i : Nat} (h1 : ρ.length ≤ i) (v : Int) :
-    (initStore f ρ)[i]? ≠ some (some v) := by
-  rw [initStore, List.getElem?_append_right (by simpa using h1)]
+theorem initStore_param (f : CSem2.Func) {ρ : List Int} (ws : List (Option Int)) {i : Nat} {v : Int}
+    (h : ρ[i]? = some v) (hi : f.pwin.length ≤ i) : (initStore f ρ ws)[i]? = some (some v) := by
+  have hlt := lt_of_get h
+  rw [initStore, List.getElem?_append_left (by simp; omega), List.getElem?_append_left (by simp; omega),
+    List.getElem?_append_right (by simpa using hi)]
+  simp only [List.length_replicate, List.getElem?_map, List.getElem?_drop, Nat.add_sub_cancel' hi, h,
+    Option.map_some]
+
+/-- an array parameter has no integer value -/
+theorem initStore_ptr (f : CSem2.Func) (ρ : List Int) (ws : List (Option Int)) {i : Nat}
+    (hi : i < f.pwin.length) : (initStore f ρ ws)[i]? = some none := by
+  rw [initStore, List.getElem?_append_left (by simp; omega), List.getElem?_append_left (by simp; omega),
+    List.getElem?_append_left (by simpa using hi)]
+  simp [hi]
+
+/-- beyond the arguments no cell of the variables holds a value on entry -/
+theorem initStore_none (f : CSem2.Func) {ρ : List Int} (ws : List (Option Int))
+    (hl : ρ.length = f.params.length) (hp : f.pwin.length ≤ f.params.length) {i : Nat}
+    (h1 : ρ.length ≤ i) (h2 : i < f.vtys.length + f.extra) (v : Int) :
+    (initStore f ρ ws)[i]? ≠ some (some v) := by
+  rw [initStore, List.getElem?_append_left (by rw [initStore_pre_len f hl hp]; exact h2),
+    List.getElem?_append_right (by simp; omega)]
   rw [List.getElem?_replicate]
   split <;> simp
 
-theorem initStore_some (f : CSem2.Func) {ρ : List Int} {i : Nat} {v : Int}
-    (h : (initStore f ρ)[i]? = some (some v)) : ρ[i]? = some v := by
-  by_cases hi : i < ρ.length
-  · rw [initStore, List.getElem?_append_left (by simpa using hi)] at h
-    simpa using h
-  · rw [initStore, List.getElem?_append_right (by simpa using hi)] at h
-    rw [List.getElem?_replicate] at h
-    split at h <;> cases h
+theorem initStore_some (f : CSem2.Func) {ρ : List Int} (ws : List (Option Int))
+    (hl : ρ.length = f.params.length) (hp : f.pwin.length ≤ f.params.length) {i : Nat} {v : Int}
+    (hi : i < f.vtys.length + f.extra)
+    (h : (initStore f ρ ws)[i]? = some (some v)) : ρ[i]? = some v ∧ f.pwin.length ≤ i := by
+  by_cases hpi : i < f.pwin.length
+  · rw [initStore_ptr f ρ ws hpi] at h; cases h
+  · by_cases hir : i < ρ.length
+    · obtain ⟨x, hx⟩ : ∃ x, ρ[i]? = some x := ⟨ρ[i], List.getElem?_eq_getElem hir⟩
+      rw [initStore_param f ws hx (by omega)] at h
+      simp only [Option.some.injEq] at h
+      exact ⟨by rw [hx, h], by omega⟩
+    · exact absurd h (initStore_none f ws hl hp (by omega) hi v)
+
+/-- the cells after all others show the elements behind the array parameters -/
+theorem initStore_win (f : CSem2.Func) {ρ : List Int} (ws : List (Option Int))
+    (hl : ρ.length = f.params.length) (hp : f.pwin.length ≤ f.params.length) (k : Nat) :
+    (initStore f ρ ws)[f.vtys.length + f.extra + k]? = ws[k]? := by
+  rw [initStore, List.getElem?_append_right (by rw [initStore_pre_len f hl hp]; omega),
+    initStore_pre_len f hl hp]
+  congr 1; omega
+
+theorem initStore_len (f : CSem2.Func) {ρ : List Int} (ws : List (Option Int))
+    (hl : ρ.length = f.params.length) (hp : f.pwin.length ≤ f.params.length) :
+    f.vtys.length + f.extra ≤ (initStore f ρ ws).length := by
+  rw [initStore, List.length_append, initStore_pre_len f hl hp]; omega
 
 /-! ## Instructions of the start block -/
 
@@ -205,24 +244,37 @@ theorem insert_ne (env : Env) {a b : Nat} (v : RVal) (h : a ≠ b) :
     rw [beq_eq_false_iff_ne]; exact tmpName_ne h
   simp [this]
 
+/-- what the prologue needs about an array parameter: its register holds the address of an allocation of the
+    callers whose bytes are the elements seen in the window cells -/
+def PtrArg (M0 : Mem) (s : Store) (env : Env) (j : Nat) (t : CSem.Ty) (w c0 : Nat) : Prop :=
+  ∃ (r : RVal) (pv : UInt64) (j' : Nat) (al' : Alloc),
+    env[tmpName (2 * j + 1)]? = some r ∧ StoreVal .ulong (pv.toNat : Int) r ∧
+    j' < M0.stack.size ∧ M0.stack[j']? = some al' ∧ al'.base = pv.toNat ∧ w * t.size ≤ al'.size ∧
+    al'.bytes.size = al'.size ∧ al'.base + al'.size ≤ stackTop ∧
+    ∀ e v, e < w → s[c0 + e]? = some (some v) →
+      ((loadLE al'.bytes (e * t.size) t.size).toNat : Int) = v % 2 ^ (8 * t.size)
+
 /-- State of the prologue after the first `i` variables got their slot. -/
 structure PInv2 (T : Stat) (params : List CSem.Ty) (ρ : List Int) (s : Store) (i : Nat) (env : Env)
     (M : Mem) : Prop where
-  a : AInv T.M0 T.cnts T.σ T.vtys s i env M
-  args : ∀ (k : Nat) (t : CSem.Ty) (v : Int), params[k]? = some t → ρ[k]? = some v →
+  a : AInv T.M0 T.cnts (T.W.take i) T.σ T.vtys s i env M
+  args : ∀ (k : Nat) (t : CSem.Ty) (v : Int), T.W.length ≤ k → params[k]? = some t → ρ[k]? = some v →
     ∃ r, env[tmpName (2 * k + 1)]? = some r ∧ StoreVal t v r
+  pargs : ∀ (j : Nat) (t : CSem.Ty) (w c0 : Nat), T.W[j]? = some (t, w, c0) →
+    T.vtys.length + xcount T.cnts T.cnts.length ≤ c0 ∧ PtrArg T.M0 s env j t w c0
 
 section Prologue
 variable (T : Stat) (params : List CSem.Ty) (ρ : List Int) (s : Store)
   (hσp : ∀ k, k < params.length → T.σ.getD k 0 = 2 * k + 2)
   (hvp : ∀ (k : Nat) (t : CSem.Ty), params[k]? = some t → T.vtys[k]? = some t)
-  (hsp : ∀ (k : Nat) (v : Int), ρ[k]? = some v → s[k]? = some (some v))
+  (hsp : ∀ (k : Nat) (v : Int), T.W.length ≤ k → ρ[k]? = some v → s[k]? = some (some v))
+  (hsw : ∀ k, k < T.W.length → s[k]? = some none ∧ params[k]? = some .ulong)
   (hlen : ρ.length = params.length) (hcl : T.cnts.length = T.vtys.length)
   (hcp : ∀ k, k < params.length → T.cnts.getD k 1 = 1)
   (hsmall : stackLimit + 128 + 32 * T.vtys.length + 8 * xcount T.cnts T.cnts.length ≤ T.M0.sp ∧
     T.M0.stack.size + T.vtys.length + 1 < 2 ^ 64)
 
-include hσp hvp hsp hlen hcl hcp hsmall in
+include hσp hvp hsp hsw hlen hcl hcp hsmall in
 /-- one parameter: `alloc`, `store` -/
 theorem run_spill2 (t : CSem.Ty) (i : Nat) (hti : params[i]? = some t) (pre post : List Item)
     (env : Env) (M : Mem) (hits : T.S.its = pre ++ spill t i ++ post)
@@ -230,7 +282,6 @@ theorem run_spill2 (t : CSem.Ty) (i : Nat) (hti : params[i]? = some t) (pre post
     ∃ env' M', T.Reach 2 (T.at env M pre) (T.at env' M' (pre ++ spill t i)) ∧
       PInv2 T params ρ s (i + 1) env' M' := by
   have hi : i < params.length := lt_of_get hti
-  obtain ⟨v, hv⟩ : ∃ v, ρ[i]? = some v := ⟨ρ[i]'(by omega), List.getElem?_eq_getElem (by omega)⟩
   have hiv : i < T.vtys.length := lt_of_get (hvp i t hti)
   have hcl' : i < T.cnts.length := by rw [hcl]; exact hiv
   have hci := hcp i hi
@@ -251,13 +302,46 @@ theorem run_spill2 (t : CSem.Ty) (i : Nat) (hti : params[i]? = some t) (pre post
   have ha1 := hnext (env.insert (tmpName (2 * i + 2)) ⟨.l, base.toUInt64⟩)
     (fun k hk => by rw [hσp k (by omega)]; exact insert_ne env _ (by omega))
     (by rw [hσi]; simp) (hvp i t hti)
-  obtain ⟨r0, hr0, hsv0⟩ := inv.args i t v hti hv
-  obtain ⟨a, M2, h1, hxs, _, ha2⟩ := ha1.store hcl (k := i) (Nat.lt_succ_self _) (hvp i t hti)
+  have hWtk : (T.W.take i).length ≤ i := by simp; omega
+  -- the register of the argument and the value it stores
+  obtain ⟨v, r0, hr0, hsv0, hfin⟩ : ∃ (v : Int) (r0 : RVal), env[tmpName (2 * i + 1)]? = some r0 ∧
+      StoreVal t v r0 ∧ ∀ env' M2, (∀ k, k < i + 1 → env'[tmpName (T.σ.getD k 0)]? =
+          (env.insert (tmpName (2 * i + 2)) ⟨.l, base.toUInt64⟩)[tmpName (T.σ.getD k 0)]?) →
+        AInv T.M0 T.cnts (T.W.take i) T.σ T.vtys ((s.set i none).set i (some v)) (i + 1) env' M2 →
+        AInv T.M0 T.cnts (T.W.take (i + 1)) T.σ T.vtys s (i + 1) env' M2 := by
+    by_cases hiW : i < T.W.length
+    · obtain ⟨hsi, hpt⟩ := hsw i hiW
+      have htu : t = .ulong := by rw [hti] at hpt; exact Option.some.inj hpt
+      subst htu
+      obtain ⟨q, hq⟩ : ∃ q, T.W[i]? = some q := ⟨T.W[i], List.getElem?_eq_getElem hiW⟩
+      obtain ⟨t', w, c0⟩ := q
+      obtain ⟨hc0, r, pv, j', al', g1, g2, g3, g4, g5, g6, g7, g8, g9⟩ := inv.pargs i t' w c0 hq
+      refine ⟨pv.toNat, r, g1, g2, ?_⟩
+      intro env' M2 _ ha2
+      have hs2 : ((s.set i none).set i (some (pv.toNat : Int))).set i none = s := by
+        rw [List.set_set, List.set_set]; exact set_same hsi
+      have := ha2.addWin (by simp; omega) (hvp i _ hti) (pv := pv)
+        (by rw [set_get_self _ _ (by simpa using lt_of_get hsi)]) hc0 g3 g4 g5 g6 g7 g8 (t := t') (w := w)
+        (by
+          intro e v' he hv'
+          rw [set_get_ne _ _ (by omega), set_get_ne _ _ (by omega)] at hv'
+          exact g9 e v' he hv')
+      rw [hs2] at this
+      rw [List.take_succ, hq]
+      exact this
+    · obtain ⟨v, hv⟩ : ∃ v, ρ[i]? = some v := ⟨ρ[i]'(by omega), List.getElem?_eq_getElem (by omega)⟩
+      obtain ⟨r0, hr0, hsv0⟩ := inv.args i t v (by omega) hti hv
+      refine ⟨v, r0, hr0, hsv0, ?_⟩
+      intro env' M2 _ ha2
+      have hs2 : (s.set i none).set i (some v) = s := by
+        rw [List.set_set]; exact set_same (hsp i v (by omega) hv)
+      rw [hs2] at ha2
+      rw [List.take_of_length_le (by omega)] at ha2 ⊢
+      exact ha2
+  obtain ⟨a, M2, h1, hxs, _, ha2⟩ := ha1.store hcl (k := i) (Nat.lt_succ_self _) hWtk (hvp i t hti)
     (v := v) (r := r0) hsv0
   rw [hσi] at h1
-  have hs2 : (s.set i none).set i (some v) = s := by
-    rw [List.set_set]; exact set_same (hsp i v hv)
-  rw [hs2] at ha2
+  have ha3 := hfin _ M2 (fun k _ => rfl) ha2
   simp only [spill, List.append_assoc, List.cons_append, List.nil_append] at hits
   have hr1 := run_res T (env := env) (M := M) hits (readVals_one (readVal_int _ _ _)) hxa
   have hits2 : T.S.its = (pre ++ [.ins (.op (some (tmpName (2 * i + 2), .l))
@@ -268,14 +352,17 @@ theorem run_spill2 (t : CSem.Ty) (i : Nat) (hti : params[i]? = some t) (pre post
       some r0 := by
     rw [insert_ne env _ (by omega)]; exact hr0
   have hr2 := run_nores T hits2 (readVals_two (readVal_tmp harg) (readVal_tmp h1)) hxs
-  refine ⟨_, M2, ?_, ha2, ?_⟩
+  refine ⟨_, M2, ?_, ha3, ?_, ?_⟩
   · have := hr1.trans hr2
     simp only [spill, List.append_assoc, List.singleton_append] at this ⊢
     exact this
-  · intro k t' v' ht' hv'
-    rw [insert_ne env _ (by omega)]; exact inv.args k t' v' ht' hv'
+  · intro k t' v' hk ht' hv'
+    rw [insert_ne env _ (by omega)]; exact inv.args k t' v' hk ht' hv'
+  · intro j t' w c0 hq
+    obtain ⟨hc0, r, pv, j', al', g1, g⟩ := inv.pargs j t' w c0 hq
+    exact ⟨hc0, r, pv, j', al', by rw [insert_ne env _ (by omega)]; exact g1, g⟩
 
-include hσp hvp hsp hlen hcl hcp hsmall in
+include hσp hvp hsp hsw hlen hcl hcp hsmall in
 /-- all parameters -/
 theorem run_spills2 (ts : List CSem.Ty) : ∀ (i : Nat) (pre post : List Item) (env : Env) (M : Mem),
     (∀ (k : Nat) (t : CSem.Ty), ts[k]? = some t → params[i + k]? = some t) →
@@ -289,7 +376,7 @@ theorem run_spills2 (ts : List CSem.Ty) : ∀ (i : Nat) (pre post : List Item) (
   | cons t ts ih =>
     intro i pre post env M hty hits inv
     simp only [spills] at hits ⊢
-    obtain ⟨env1, M1, hr1, inv1⟩ := run_spill2 T params ρ s hσp hvp hsp hlen hcl hcp hsmall t i
+    obtain ⟨env1, M1, hr1, inv1⟩ := run_spill2 T params ρ s hσp hvp hsp hsw hlen hcl hcp hsmall t i
       (by simpa using hty 0 t rfl) pre (spills ts (i + 1) ++ post) env M
       (by rw [hits]; simp only [List.append_assoc]) inv
     obtain ⟨n, env2, M2, hr2, inv2⟩ := ih (i + 1) (pre ++ spill t i) post env1 M1
@@ -309,10 +396,11 @@ theorem run_allocs (hinc : ∀ a b, a < b → b < T.vtys.length → T.σ.getD a 
     (∀ (k : Nat) (t : CSem.Ty) (n : Nat), tys[k]? = some (t, n) →
       T.vtys[i + k]? = some t ∧ T.cnts[i + k]? = some n ∧ 1 ≤ n) →
     (∀ (k : Nat), k < tys.length → T.σ.getD (i + k) 0 = slots.getD k 0) →
-    (∀ (j : Nat) (v : Int), i ≤ j → s[j]? ≠ some (some v)) →
-    T.S.its = pre ++ List.zipWith allocIns tys slots ++ post → AInv T.M0 T.cnts T.σ T.vtys s i env M →
+    (∀ (j : Nat) (v : Int), i ≤ j → j < T.vtys.length + xcount T.cnts T.cnts.length →
+      s[j]? ≠ some (some v)) →
+    T.S.its = pre ++ List.zipWith allocIns tys slots ++ post → AInv T.M0 T.cnts T.W T.σ T.vtys s i env M →
     ∃ n env' M', T.Reach n (T.at env M pre) (T.at env' M' (pre ++ List.zipWith allocIns tys slots)) ∧
-      AInv T.M0 T.cnts T.σ T.vtys s (i + tys.length) env' M' := by
+      AInv T.M0 T.cnts T.W T.σ T.vtys s (i + tys.length) env' M' := by
   induction tys with
   | nil =>
     intro slots i pre post env M _ _ _ _ _ inv
@@ -336,11 +424,7 @@ theorem run_allocs (hinc : ∀ a b, a < b → b < T.vtys.length → T.σ.getD a 
       obtain ⟨base, M1, _, hxa, _, hnext⟩ := inv.alloc (t := t) hil (by omega) (by omega)
         (by omega) (by omega) (by
           intro e v he
-          apply hsn
-          unfold ecell xbase
-          split
-          · exact Nat.le_refl _
-          · omega)
+          refine hsn _ v ?_ ?_ <;> unfold ecell xbase <;> split <;> omega)
       rw [hcd] at hxa
       have ha1 := hnext (env.insert (tmpName sl) ⟨.l, base.toUInt64⟩)
         (fun k hk => by
@@ -357,7 +441,7 @@ theorem run_allocs (hinc : ∀ a b, a < b → b < T.vtys.length → T.σ.getD a 
         (fun k hk => by
           have := hsl (k + 1) (by simp; omega)
           rw [Nat.add_assoc, Nat.add_comm 1 k]; simpa using this)
-        (fun j v hj => hsn j v (by omega))
+        (fun j v hj hj2 => hsn j v (by omega) hj2)
         (by rw [hits]; simp) ha1
       refine ⟨1 + m, env2, M2, ?_, ?_⟩
       · have := hr1.trans hr2
@@ -411,24 +495,37 @@ theorem Room.frame {K d : Nat} {M : Mem} (h : Room K (d + 1) M) :
   rw [Nat.succ_mul] at h1 h2
   constructor <;> omega
 
+/-- The array arguments of an activation of `g`: the register of parameter `j` holds the address of an
+    allocation of the callers, whose bytes are the (in-range) elements `ws` shows. -/
+def WinOK (cs : Bool) (g : CSem2.Func) (ws : List (Option Int)) (env0 : Env) (M : Mem) : Prop :=
+  ∀ (j : Nat) (t : CSem.Ty) (w : Nat), g.pwin[j]? = some (t, w) →
+    ∃ (r : RVal) (pv : UInt64) (j' : Nat) (al' : Alloc),
+      env0[tmpName (2 * j + 1)]? = some r ∧ StoreVal .ulong (pv.toNat : Int) r ∧
+      j' < M.stack.size ∧ M.stack[j']? = some al' ∧ al'.base = pv.toNat ∧ w * t.size ≤ al'.size ∧
+      al'.bytes.size = al'.size ∧ al'.base + al'.size ≤ stackTop ∧
+      ∀ e v, e < w → ws[((g.pwin.take j).map (·.2)).sum + e]? = some (some v) →
+        ((loadLE al'.bytes (e * t.size) t.size).toNat : Int) = v % 2 ^ (8 * t.size) ∧
+          InRange (t.intTy cs) v
+
 /-- One activation of the emitted function `g`, entered with the parameters bound in `env0` and the
     caller's memory `M0` (stack pointer lowered by the frame cost), when the statements of its body are
     simulated (`hsim`): it runs to a `ret` that delivers a representation of the returned value to the
     frames below (`rest`) with the memory `M0`. -/
-theorem sim_func (cs : Bool) (sid : Nat) (g : CSem2.Func) (ρ : List Int) (v : Int)
+theorem sim_func (cs : Bool) (sid : Nat) (g : CSem2.Func) (ρ : List Int) (ws : List (Option Int)) (v : Int)
     (hwt : CSem2.WT g) (henv : EnvOK cs g.params ρ)
     (P : List CSem2.Func) (p : Prog) (ext : Qbe.Ext) (K d : Nat) (M0 : Mem)
     (hfuncs : ∀ fn g', lookup P fn = some g' →
       ∃ sid', p.funcs[fn]? = some (FuncInfo.of (Lower2.emitFunc cs sid' g')))
     (hP : ∀ fn g', lookup P fn = some g' →
       CSem2.WT g' ∧ callsOK P g'.body = true ∧ g'.vtys.length + g'.extra ≤ K)
-    (hfrag : frag P g.cnts g.body = true) (hK : g.vtys.length + g.extra ≤ K)
+    (hfrag : frag P g.cnts (funcW g) g.body = true) (hK : g.vtys.length + g.extra ≤ K)
     (hmem : MemInv M0) (hroom : Room K (d + 1) M0) (htop : M0.sp ≤ stackTop)
     (rest : List Qbe.Frame) (tr : Array String) (env0 : Env)
-    (hargs : ∀ (k : Nat) (t : CSem.Ty) (v' : Int), g.params[k]? = some t → ρ[k]? = some v' →
-      ∃ r, env0[tmpName (2 * k + 1)]? = some r ∧ StoreVal t v' r)
+    (hargs : ∀ (k : Nat) (t : CSem.Ty) (v' : Int), g.pwin.length ≤ k → g.params[k]? = some t →
+      ρ[k]? = some v' → ∃ r, env0[tmpName (2 * k + 1)]? = some r ∧ StoreVal t v' r)
+    (hwin : WinOK cs g ws env0 M0)
     (fuel : Nat) (hsim : ∀ T : Stat, T.P = P → T.d = d → SimStmt T fuel)
-    (hex : exec cs P fuel (initStore g ρ) g.body = some (.ret v)) :
+    (hex : exec cs P fuel (initStore g ρ ws) g.body = some (.ret v)) :
     ∃ n st r, Reach p ext n
         (mkSt ⟨FuncInfo.of (Lower2.emitFunc cs sid g), M0.stack.size, M0.sp, rest, tr⟩ env0
           { M0 with sp := M0.sp - frameCost } 0 0) st ∧
@@ -436,7 +533,7 @@ theorem sim_func (cs : Bool) (sid : Nat) (g : CSem2.Func) (ρ : List Int) (v : I
       InRange (g.ret.intTy cs) v := by
   have hlen := henv.1
   simp only [CSem2.WT, CSem2.Func.wt, Bool.and_eq_true, beq_iff_eq, decide_eq_true_eq] at hwt
-  obtain ⟨⟨⟨⟨_, hwt⟩, harrs⟩, hdecls⟩, hextra⟩ := hwt
+  obtain ⟨⟨⟨⟨⟨⟨⟨⟨⟨_, hwt⟩, harrs⟩, hdecls⟩, hextra⟩, hptrs⟩, hpfx⟩, hpwl⟩, hwall⟩, hwtot⟩ := hwt
   obtain ⟨hnd, hcount⟩ := wt_noDead _ _ _ _ _ _ _ hwt
   have hcl : g.cnts.length = g.vtys.length := by simp [CSem2.Func.cnts, CSem2.Func.vtys]
   have hcp : ∀ k, k < g.params.length → g.cnts.getD k 1 = 1 := by
@@ -459,7 +556,8 @@ theorem sim_func (cs : Bool) (sid : Nat) (g : CSem2.Func) (ρ : List Int) (v : I
   let S : Sit := ⟨cs, p, ext, x, M0, ft, o0, its, [], [], hblocks, hlidx,
     ⟨rfl, by intro i t v h; simp at h⟩⟩
   let σ : List Nat := paramSlots g.params.length ++ new
-  let T : Stat := ⟨S, σ, g.vtys, g.ret, rfl, P, M0, rfl, rfl, g.cnts, K, d, hK, hroom, hfuncs, hP⟩
+  let T : Stat := ⟨S, σ, g.vtys, g.ret, rfl, P, M0, rfl, rfl, g.cnts, funcW g, K, d, hK, hroom, hfuncs, hP⟩
+  have hWl : T.W.length = g.pwin.length := funcW_length g
   have hσslots : (Lower2.bodyOut cs sid g).ctx.slots = σ := hslots
   -- facts about the slot map
   have hσp : ∀ k, k < g.params.length → T.σ.getD k 0 = 2 * k + 2 := by
@@ -493,8 +591,17 @@ theorem sim_func (cs : Bool) (sid : Nat) (g : CSem2.Func) (ρ : List Int) (v : I
     intro k t h
     show (g.params ++ g.locals)[k]? = some t
     rw [List.getElem?_append_left (lt_of_get h)]; exact h
-  have hsp' : ∀ (k : Nat) (v : Int), ρ[k]? = some v → (initStore g ρ)[k]? = some (some v) :=
-    fun k v h => initStore_param g h
+  have hsp' : ∀ (k : Nat) (v : Int), T.W.length ≤ k → ρ[k]? = some v →
+      (initStore g ρ ws)[k]? = some (some v) :=
+    fun k v hk h => initStore_param g ws h (by rw [← hWl]; exact hk)
+  have hsw : ∀ k, k < T.W.length → (initStore g ρ ws)[k]? = some none ∧ g.params[k]? = some .ulong := by
+    intro k hk
+    rw [hWl] at hk
+    refine ⟨initStore_ptr g ρ ws hk, ?_⟩
+    have : (g.params.take g.pwin.length)[k]? = some .ulong := by
+      rw [hpfx, List.getElem?_replicate]; simp [hk]
+    rw [List.getElem?_take] at this
+    simpa [hk] using this
   have hfr := hroom.frame
   have hsmall' : stackLimit + 128 + 32 * T.vtys.length + 8 * xcount T.cnts T.cnts.length ≤ T.M0.sp ∧
       T.M0.stack.size + T.vtys.length + 1 < 2 ^ 64 := by
@@ -506,8 +613,8 @@ theorem sim_func (cs : Bool) (sid : Nat) (g : CSem2.Func) (ρ : List Int) (v : I
   let M0' : Mem := { M0 with sp := M0.sp - frameCost }
   have hfc : frameCost = 64 := rfl
   -- invariant at entry
-  have hpinv0 : PInv2 T g.params ρ (initStore g ρ) 0 env0 M0' := by
-    refine ⟨⟨⟨?_, ?_, ?_, ?_⟩, ?_, ?_, ?_, ?_, ?_, ?_, ?_⟩, ?_⟩
+  have hpinv0 : PInv2 T g.params ρ (initStore g ρ ws) 0 env0 M0' := by
+    refine ⟨⟨⟨?_, ?_, ?_, ?_⟩, ?_, ?_, ?_, ?_, ?_, ?_, ?_, ?_⟩, ?_, ?_⟩
     · exact hmem.sorted
     · intro i hi
       exact Nat.le_trans (Nat.sub_le _ _) (hmem.above i hi)
@@ -524,13 +631,25 @@ theorem sim_func (cs : Bool) (sid : Nat) (g : CSem2.Func) (ρ : List Int) (v : I
     · rfl
     · intro k _; rfl
     · intro k t hk; omega
-    · exact hargs
+    · intro j t w c0 hq; simp at hq
+    · intro k t v' hk; exact hargs k t v' (by rw [← hWl]; exact hk)
+    · intro j t w c0 hq
+      obtain ⟨hq1, hq2⟩ := (funcW_get g).1 hq
+      subst hq2
+      refine ⟨by show g.vtys.length + g.extra ≤ g.wbase j; unfold CSem2.Func.wbase; omega, ?_⟩
+      obtain ⟨r, pv, j', al', g1, g2, g3, g4, g5, g6, g7, g8, g9⟩ := hwin j t w hq1
+      refine ⟨r, pv, j', al', g1, g2, g3, g4, g5, g6, g7, g8, ?_⟩
+      intro e v' he hv'
+      have : g.wbase j + e = g.vtys.length + g.extra + (((g.pwin.take j).map (·.2)).sum + e) := by
+        unfold CSem2.Func.wbase; omega
+      rw [this, initStore_win g ws hlen hpwl] at hv'
+      exact (g9 e v' he hv').1
   -- the spills
   have hits0 : T.S.its = [] ++ spills g.params 0 ++ ((Lower2.bodyOut cs sid g).allocs ++
       (.lbl none (bodyLabel sid) [] :: (Lower2.bodyOut cs sid g).items)) := by
     show Lower2.funcItems cs sid g = _
     simp [Lower2.funcItems]
-  obtain ⟨n1, env1, M1, hreach1, hpinv1⟩ := run_spills2 T g.params ρ (initStore g ρ) hσp hvp hsp' hlen
+  obtain ⟨n1, env1, M1, hreach1, hpinv1⟩ := run_spills2 T g.params ρ (initStore g ρ ws) hσp hvp hsp' hsw hlen
     hcl hcp hsmall' g.params 0 [] _ env0 M0' (fun k t h => by simpa using h) hits0 hpinv0
   simp only [List.nil_append, Nat.zero_add] at hreach1 hpinv1
   -- the allocations of the locals
@@ -540,40 +659,51 @@ theorem sim_func (cs : Bool) (sid : Nat) (g : CSem2.Func) (ρ : List Int) (v : I
     rw [← this]
     show Lower2.funcItems cs sid g = _
     simp [Lower2.funcItems]
-  obtain ⟨n2, env2, M2, hreach2, hainv2⟩ := run_allocs T (initStore g ρ) hcl hsmall' hinc hextra
+  obtain ⟨n2, env2, M2, hreach2, hainv2⟩ := run_allocs T (initStore g ρ ws) hcl hsmall' hinc hextra
     (declTys g.body) new
     g.params.length (spills g.params 0) _ env1 M1 hnewlen
     (fun k t n h => wt_declTys _ _ g.cnts _ _ _ _ _ hwt harrs hdecls k t n h)
     (fun k hk => hσl k (by omega))
-    (fun j v hj => initStore_none g (by omega) v) hits1 hpinv1.a
+    (fun j v hj hj2 => initStore_none g ws hlen hpwl (by omega) hj2 v) hits1
+    (by have := hpinv1.a; rwa [List.take_of_length_le (by rw [hWl]; exact hpwl)] at this)
   -- the invariant of the body
   have hall : g.params.length + (declTys g.body).length = T.vtys.length := by
     show _ = g.vtys.length; omega
   rw [hall] at hainv2
-  have hinv : SInv T.M0 T.S.cs T.cnts T.σ T.vtys (initStore g ρ) env2 M2 := by
+  have hinv : SInv T.M0 T.S.cs T.cnts T.W T.σ T.vtys (initStore g ρ ws) env2 M2 := by
     have hrange : ∀ (i : Nat) (t : CSem.Ty) (v' : Int), g.vtys[i]? = some t →
-        (initStore g ρ)[i]? = some (some v') → InRange (t.intTy cs) v' := by
+        (initStore g ρ ws)[i]? = some (some v') → InRange (t.intTy cs) v' := by
       intro i t v' ht hv'
-      have hρ := initStore_some g hv'
+      have hρ := (initStore_some g ws hlen hpwl (by have := lt_of_get ht; omega) hv').1
       have hi : i < g.params.length := by rw [← hlen]; exact lt_of_get hρ
       have ht' : g.params[i]? = some t := by
         have : (g.params ++ g.locals)[i]? = some t := ht
         rwa [List.getElem?_append_left hi] at this
       exact henv.2 i t v' ht' hρ
-    refine ⟨hainv2, hcl, ?_, hrange, ?_⟩
-    · simp only [initStore, List.length_append, List.length_map, List.length_replicate, hlen]
-      show _ = g.vtys.length + g.extra
-      omega
+    refine ⟨hainv2, hcl, initStore_len g ws hlen hpwl, hrange, ?_, ?_⟩
     · intro k e t v' ht he hv'
       by_cases he0 : e = 0
       · subst he0
         rw [ecell_zero] at hv'
         exact hrange k t v' ht hv'
       · exfalso
-        refine initStore_none g (i := ecell k (xbase g.cnts k) e) ?_ v' hv'
-        unfold ecell xbase
-        rw [if_neg he0, hcl, hvl]
-        omega
+        have hkl : k < g.cnts.length := by rw [hcl]; exact lt_of_get ht
+        have hxs := xcount_succ g.cnts hkl
+        have hxm := xcount_mono g.cnts (a := k + 1) (b := g.cnts.length) (by omega)
+        have he' : e < g.cnts.getD k 1 := he
+        refine initStore_none g ws hlen hpwl (i := ecell k (xbase g.cnts k) e) ?_ ?_ v' hv' <;>
+          unfold ecell xbase <;> rw [if_neg he0, hcl, hvl]
+        · omega
+        · have hxe : g.extra = xcount g.cnts g.cnts.length := rfl
+          omega
+    · intro j e t w c0 v' hq he hv'
+      obtain ⟨hq1, hq2⟩ := (funcW_get g).1 hq
+      subst hq2
+      obtain ⟨r, pv, j', al', g1, g2, g3, g4, g5, g6, g7, g8, g9⟩ := hwin j t w hq1
+      have : g.wbase j + e = g.vtys.length + g.extra + (((g.pwin.take j).map (·.2)).sum + e) := by
+        unfold CSem2.Func.wbase; omega
+      rw [this, initStore_win g ws hlen hpwl] at hv'
+      exact (g9 e v' he hv').2
   -- fall through into `body`
   have hitsL : T.S.its = (spills g.params 0 ++ List.zipWith allocIns (declTys g.body) new) ++
       .lbl none (bodyLabel sid) [] :: (Lower2.bodyOut cs sid g).items := hits1
@@ -604,7 +734,7 @@ theorem sim_func (cs : Bool) (sid : Nat) (g : CSem2.Func) (ρ : List Int) (v : I
     rw [hits1]
     simp only [Lower2.bodyOut, List.append_assoc, List.singleton_append, List.append_nil]
     rfl
-  have hpost := hsim T rfl rfl g.body (initStore g ρ) (.ret v) (false, false) "" "" (Lower2.bodyCtx sid g)
+  have hpost := hsim T rfl rfl g.body (initStore g ρ ws) (.ret v) (false, false) "" "" (Lower2.bodyCtx sid g)
     g.params.length g.vtys.length _ [] env2 M2 hex hfrag hwt hpos hext hitsB ⟨(by intro h; cases h), (by intro h; cases h)⟩ hinv
   obtain ⟨hrg, n3, hret⟩ := hpost
   have hfin : ∃ st r, T.Reach n3 (T.at env2 M2 (spills g.params 0 ++
